@@ -9,7 +9,8 @@ from . import loader, prove
 def main():
     modname = sys.argv[1]
     filt = sys.argv[2] if len(sys.argv) > 2 else ""
-    reg = importlib.import_module(modname).build()
+    cm = importlib.import_module(modname)
+    reg = cm.build()
     files = sorted({f for (f, _) in reg.contracts if f != "<extern>"})
     modules = loader.load(files)
     tot = bad = 0
@@ -19,14 +20,14 @@ def main():
         cd = reg.classes.get(qual.split(".")[0]) if "." in qual else None
         for variant in prove.variant_space(c, cd, "." in qual, c.is_init):
             t0 = time.time()
-            r = prove.prove_variant(reg, modules, file, qual, variant)
+            r = prove.prove_variant(reg, modules, file, qual, variant, extra_setup=getattr(cm, 'engine_setup', None))
             n = len(r.obligations)
             nd = sum(1 for o in r.obligations if o["status"] == "discharged")
             tot += n
             flag = "" if (r.status == "ok" and n == nd) else "  <<<<<<"
             print(f"{qual}[{r.variant}] {r.status} {nd}/{n} paths={r.paths} {r.time:.2f}s {r.detail if r.status!='ok' else ''}{flag}")
             for o in r.obligations:
-                if o["status"] != "discharged":
+                if o["status"] != "discharged" and not o["name"].endswith("/mustfail"):
                     bad += 1
                     print("    ", o["status"], o["name"], "|", o["where"], "|", o.get("model"), o.get("reason", ""))
     print("total obligations", tot, "not discharged", bad)
